@@ -146,6 +146,7 @@ func runC09(p *Prog, r *Report) {
 	r.Floor("C09.R4", lockOpsOf(p, roots), 40, "lock acquisitions on call paths from entry points")
 	nLocks := c09Pairing(p, r, "C09.R3", "")
 	r.Floor("C09.R3", nLocks, 25, "lock acquisitions")
+	r.Floor("C09.R9", c09LockOrder(p, r, "C09.R9", roots), 3, "nested lock acquisitions")
 	r.Floor("C09.R8", c09PanicSafe(p, r, "C09.R8", ""), 5, "critical sections that may run user-supplied code")
 	r.Floor("C09.R7", c09GetOrCreate(p, r, "C09.R7", roots), 2, "get-or-create insertions into shared maps")
 	limiterSerial(p, r, "C09.R6") // no update of a source's buckets is lost: get-or-create is one critical section
@@ -624,4 +625,53 @@ func canonAccessPath(p *Prog, typ *types.Named, path string) string {
 		}
 	}
 	return path
+}
+
+
+// c09LockOrder (R9): locks of one object are always taken in the same order. If some call path acquires B
+// while holding A and another acquires A while holding B (at least one of the four acquisitions exclusive),
+// two concurrent requests can each hold one and wait for the other forever (e.g. a completion recording its
+// response while the trip resets the metrics).
+func c09LockOrder(p *Prog, r *Report, rule string, roots []*types.Named) int {
+	n := 0
+	for _, typ := range roots {
+		ls := LocksetFor(p, typ)
+		tn := shortType(typ)
+		first := map[[2]string]LockEdge{}
+		for _, e := range ls.Order {
+			if _, ex := c09ExemptRoots[strings.TrimSuffix(e.At.Root, "$go")]; ex {
+				continue
+			}
+			k := [2]string{e.Held, e.Acq}
+			if old, ok := first[k]; !ok || (old.HeldMode != 'W' && old.AcqMode != 'W' && (e.HeldMode == 'W' || e.AcqMode == 'W')) {
+				first[k] = e
+			}
+		}
+		n += len(first)
+		seen := map[string]bool{}
+		for k, e := range first {
+			rev, ok := first[[2]string{k[1], k[0]}]
+			if !ok {
+				continue
+			}
+			if e.HeldMode != 'W' && e.AcqMode != 'W' && rev.HeldMode != 'W' && rev.AcqMode != 'W' {
+				continue
+			}
+			a, b := k[0], k[1]
+			if a > b {
+				continue // report each pair once
+			}
+			key := fmt.Sprintf("%s: locks %s and %s are taken in both orders", tn, a, b)
+			if seen[key] {
+				continue
+			}
+			seen[key] = true
+			r.Fail(rule, key, p.InstrPos(e.At.Instr), fmt.Sprintf("%s is acquired while holding %s in %s [entry %s], and %s while holding %s in %s at %s [entry %s]: two concurrent calls can deadlock, each holding one lock and waiting for the other",
+				b, a, FName(e.At.Fn), e.At.Root, a, b, FName(rev.At.Fn), p.InstrPos(rev.At.Instr), rev.At.Root))
+		}
+		if len(seen) == 0 && len(first) > 0 {
+			r.Pass(rule, tn+": nested lock acquisitions follow one order", "-", fmt.Sprintf("%d (held -> acquired) pairs over all call paths, no pair in both directions", len(first)))
+		}
+	}
+	return n
 }
